@@ -9,6 +9,7 @@ compared with the exact value under 1e-9*(1+|H|); cases whose a-priori rounding 
 such a bound is not compared (counted as ill-conditioned).  The impulse responses and int-valued
 FIR runs are compared exactly.
 """
+import json
 import math
 from collections import deque
 from fractions import Fraction as F
@@ -67,6 +68,26 @@ def gabs(x):
     return math.hypot(float(x[0]), float(x[1]))
 
 
+def gterms(ts, w):
+    """sum of c * w^k over (k, c) terms, k in Z, |w| = 1 (so w^-1 = conj w)"""
+    wc = (w[0], -w[1])
+    acc = (F(0), F(0))
+    for k, c in ts:
+        p = (F(1), F(0))
+        base = w if k >= 0 else wc
+        for _ in range(abs(k)):
+            p = gmul(p, base)
+        acc = gadd(acc, gmul(c, p))
+    return acc
+
+
+def filt_terms(f):
+    """(num terms, den terms) of a filter description (dense lists b/a or dict entries bt/at)"""
+    if "bt" in f:
+        return ([(k, gdec(c)) for k, c in f["bt"]], [(k, gdec(c)) for k, c in f["at"]])
+    return (list(enumerate(gdec(c) for c in f["b"])), list(enumerate(gdec(c) for c in f["a"])))
+
+
 def gdec(j):
     """JSON coefficient -> Gaussian rational pair"""
     if isinstance(j, list):
@@ -85,16 +106,18 @@ def gdiv(x, y):
 
 def abs_bound(b, a, w):
     """(H exact, a-priori bound of the float error of num(w)/den(w)); None = exact pole.
-    Each polynomial value carries at most 1e-15*n*sum|c_k| (Horner in complex floats plus the
-    rounding of exp and of atan2), the quotient (E_b + |H| E_a)/|D|."""
-    n = max(len(b), len(a)) + 1
-    D = gpoly(a, w)
+    b, a are (power, coefficient) term lists.  Each polynomial value carries at most
+    1e-15*n*sum|c_k| (Horner / power sums in complex floats plus the rounding of exp and of
+    atan2), the quotient (E_b + |H| E_a)/|D|."""
+    pows = [k for k, _ in b] + [k for k, _ in a] + [0]
+    n = max(pows) - min(pows) + 2
+    D = gterms(a, w)
     if D == (0, 0):
         return None
-    N = gpoly(b, w)
+    N = gterms(b, w)
     Dm = gabs(D)
-    Sb = sum(gabs(c) for c in b)
-    Sa = sum(gabs(c) for c in a)
+    Sb = sum(gabs(c) for _, c in b)
+    Sa = sum(gabs(c) for _, c in a)
     H = gdiv(N, D)
     Hm = gabs(H)
     return H, 1e-15 * n * (Sb + Hm * Sa) / Dm + 1e-15 * Hm
@@ -158,7 +181,7 @@ def rand_den(rng, ctype, maxlen):
     if r < 0.35:
         return [1]
     a = rand_coeffs(rng, ctype, maxlen, 1)
-    if r < 0.85 and a[0] in (0, [0, 0]):
+    if r < 0.75 and a[0] in (0, [0, 0]):
         a[0] = rng.choice([1, 1, -1, 2])
     return a
 
@@ -186,9 +209,8 @@ def well_conditioned(filters, pts, bkind="cascade"):
     of the whole (product / sum) response is below BOUND*(1+|response|)"""
     fs = []
     for f in filters:
-        b = [gdec(c) for c in f["b"]]
-        a = [gdec(c) for c in f["a"]]
-        if all(c == (0, 0) for c in a):
+        b, a = filt_terms(f)
+        if all(c == (0, 0) for _, c in a):
             return True                 # ValueError case: nothing numeric is compared
         fs.append((b, a, f.get("ctype", "int") in ("int", "dyadic", "gauss")))
     for w in pts:
@@ -269,6 +291,25 @@ def gen_freq(rng, maxlen, big):
             cls = "ZFilter"
         return {"entry": "freq", "b": f["b"], "a": f["a"], "ctype": f["ctype"], "kind": kind,
                 "pts": [genc(w) for w in pts], "wrap": rng.random() < 0.5, "cls": cls}
+    return None
+
+
+def gen_freqd(rng, maxlen, big):
+    """filters given as {delay: coeff} dicts: sparse, unordered, delays in -3..maxlen"""
+    for _ in range(200):
+        kind = rng.choice(KINDS)
+        ctype = rng.choice(["int", "int", "dyadic", "frac", "gauss"])
+        def terms(minn):
+            ks = rng.sample(range(-3, maxlen), rng.randint(minn, min(5, maxlen)))
+            return [[k, rand_coeff(rng, ctype)] for k in ks]
+        bt = terms(0)
+        at = terms(1) if rng.random() < 0.7 else [[rng.choice([0, 0, 1, -1, 2]), rng.choice([1, 2, -1])]]
+        pts = pick_points(rng, kind, big)
+        f = {"bt": bt, "at": at, "ctype": ctype}
+        if not well_conditioned([f], pts):
+            continue
+        return {"entry": "freqd", "bt": bt, "at": at, "ctype": ctype, "kind": kind,
+                "pts": [genc(w) for w in pts], "wrap": rng.random() < 0.5}
     return None
 
 
@@ -368,12 +409,12 @@ def generate(rng, tier, scale=1):
     quick = tier == "quick"
     maxlen = 7 if quick else 11
     big = not quick
-    n = (6000 if quick else 150000) * scale
+    n = (6000 if quick else 110000) * scale
     cases = []
     if scale == 1:
         cases += malformed(rng)
         cases += grid(2 if quick else 3)
-    gens = [(gen_freq, 40), (gen_bank, 20), (gen_dft, 15), (gen_fir, 13), (gen_expo, 12)]
+    gens = [(gen_freq, 34), (gen_freqd, 10), (gen_bank, 18), (gen_dft, 14), (gen_fir, 12), (gen_expo, 12)]
     total = sum(wt for _, wt in gens)
     for g, wt in gens:
         for _ in range(n * wt // total):
@@ -471,6 +512,12 @@ def impl(c):
             filt = mk_filter(c, c.get("cls", "ZFilter"))
             oms = omegas(c)
             return observe(c["kind"], filt.freq_response(container(c["kind"], oms)), len(oms))
+        if e == "freqd":
+            ct = c["ctype"]
+            filt = ZFilter(dict((k, py_coeff(x, ct)) for k, x in c["bt"]),
+                           dict((k, py_coeff(x, ct)) for k, x in c["at"]))
+            oms = omegas(c)
+            return observe(c["kind"], filt.freq_response(container(c["kind"], oms)), len(oms))
         if e == "bank":
             members = [mk_filter(f) for f in c["bank"]]
             bank = (CascadeFilter if c["bkind"] == "cascade" else ParallelFilter)(*members)
@@ -506,6 +553,8 @@ def request(c):
     e = c["entry"]
     if e == "freq":
         return {"entry": "freq", "b": c["b"], "a": c["a"], "ws": c["pts"]}
+    if e == "freqd":
+        return {"entry": "freqd", "bt": c["bt"], "at": c["at"], "ws": c["pts"]}
     if e == "bank":
         return {"entry": "bank", "kind": c["bkind"], "ws": c["pts"],
                 "bank": [{"b": f["b"], "a": f["a"]} for f in c["bank"]]}
@@ -553,9 +602,22 @@ def first_err(exp):
     return None
 
 
+_ILL = {}
+
+
 def ill_conditioned(c):
+    k = json.dumps(c, sort_keys=True)
+    r = _ILL.get(k)
+    if r is None:
+        if len(_ILL) > 20000:
+            _ILL.clear()
+        r = _ILL[k] = _ill_conditioned(c)
+    return r
+
+
+def _ill_conditioned(c):
     e = c["entry"]
-    if e == "freq":
+    if e in ("freq", "freqd"):
         return not well_conditioned([c], [gdec_pt(p) for p in c["pts"]])
     if e == "bank":
         return not well_conditioned(c["bank"], [gdec_pt(p) for p in c["pts"]], c["bkind"])
@@ -589,7 +651,7 @@ def cmp_resp(c, io, exp, label, kind_tag, out, ctor):
 def compare(c, io, drv):
     out = []
     e = c["entry"]
-    if e in ("freq", "bank"):
+    if e in ("freq", "freqd", "bank"):
         if ill_conditioned(c):
             return []
         cmp_resp(c, io, drv["model"], "model", "model", out, drv["ctor_model"])
@@ -649,7 +711,7 @@ def tally(eng, c, io):
     eng.count("entry", e)
     if "err" in io:
         eng.count("impl_error", e + ":" + io["err"])
-    if e in ("freq", "bank"):
+    if e in ("freq", "freqd", "bank"):
         eng.count("container", c["kind"])
         eng.count("n_points", min(len(c["pts"]), 8))
         for p in c["pts"]:
@@ -680,6 +742,17 @@ def tally(eng, c, io):
         gaps = any(j - i > 1 for i, j in zip(b_nz, b_nz[1:]))
         eng.count("horner_merged_gap", gaps)
         eng.count("class", c.get("cls"))
+    elif e == "freqd":
+        ks_a = [k for k, x in c["at"] if gdec(x) != (0, 0)]
+        ks_b = [k for k, x in c["bt"] if gdec(x) != (0, 0)]
+        if not ks_a:
+            br = "dict:no-denominator-term(ValueError)"
+        else:
+            lo = min(ks_a)
+            br = ("dict:shift%+d" % (-lo if abs(lo) < 3 else (3 if lo < 0 else -3))) + \
+                 (":general-sum" if any(k < lo for k in ks_b) else ":horner")
+        eng.count("eval_branch", br)
+        eng.count("dict_unsorted", ks_b != sorted(ks_b) or ks_a != sorted(ks_a))
     elif e == "bank":
         eng.count("bank", "%s:%d" % (c["bkind"], len(c["bank"])))
     elif e == "dft":
@@ -709,15 +782,27 @@ def _shrink_list(xs):
 
 def shrink(c):
     e = c["entry"]
-    if e in ("freq", "bank", "dft", "fir"):
+    if e in ("freq", "freqd", "bank", "dft", "fir"):
         pts = c["pts"]
         for i in range(len(pts)):
             if c.get("kind") != "scalar" or len(pts) > 1:
                 yield dict(c, pts=pts[:i] + pts[i + 1:])
         if c.get("wrap"):
             yield dict(c, wrap=False)
-    if e in ("freq", "bank") and c["kind"] not in ("list", "scalar"):
+    if e in ("freq", "freqd", "bank") and c["kind"] not in ("list", "scalar"):
         yield dict(c, kind="list")
+    if e == "freqd":
+        for key in ("bt", "at"):
+            ts = c[key]
+            for i in range(len(ts)):
+                if key == "bt" or len(ts) > 1:
+                    yield dict(c, **{key: ts[:i] + ts[i + 1:]})
+                if ts[i][1] != 1:
+                    yield dict(c, **{key: ts[:i] + [[ts[i][0], 1]] + ts[i + 1:]})
+                if ts[i][0] != 0 and all(t[0] != ts[i][0] - (1 if ts[i][0] > 0 else -1) for t in ts):
+                    yield dict(c, **{key: ts[:i] + [[ts[i][0] - (1 if ts[i][0] > 0 else -1), ts[i][1]]] + ts[i + 1:]})
+            if ts != sorted(ts, key=lambda t: t[0]):
+                yield dict(c, **{key: sorted(ts, key=lambda t: t[0])})
     if e == "freq":
         for b in _shrink_list(c["b"]):
             yield dict(c, b=b)
@@ -767,6 +852,9 @@ def neighbours(c):
                         yield dict(c, **{key: xs[:i] + [x + d] + xs[i + 1:]})
         for p in others:
             yield dict(c, pts=[p], kind="list")
+    elif e == "freqd":
+        for p in others:
+            yield dict(c, pts=[p], kind="list")
     elif e == "bank":
         for p in others:
             yield dict(c, pts=[p], kind="list")
@@ -788,7 +876,7 @@ def classify(c, io, drv):
     if "err" in io:
         return "%s:raises-%s" % (tag, io["err"])
     exp = drv.get("spec")
-    if e in ("freq", "bank"):
+    if e in ("freq", "freqd", "bank"):
         if drv.get("ctor_spec") or first_err(exp):
             return "%s:expected-%s" % (tag, "ValueError" if drv.get("ctor_spec") else first_err(exp))
         if io.get("kind") != RESULT_KIND[c["kind"]]:
